@@ -137,9 +137,11 @@ type backend struct {
 	srv    *grpc.Server
 	begins int64
 	ends   int64
-	pump   *acceptPump
-	child  *childListener
-	opts   []grpc.ServerOption
+	// when the backend saw a connection end last (unix ns; written before ends is incremented)
+	lastEnd int64
+	pump    *acceptPump
+	child   *childListener
+	opts    []grpc.ServerOption
 }
 
 // The backend's socket stays bound for the life of the harness: one goroutine accepts on it,
@@ -250,6 +252,7 @@ func (b *backend) HandleConn(_ context.Context, s stats.ConnStats) {
 	case *stats.ConnBegin:
 		atomic.AddInt64(&b.begins, 1)
 	case *stats.ConnEnd:
+		atomic.StoreInt64(&b.lastEnd, time.Now().UnixNano())
 		atomic.AddInt64(&b.ends, 1)
 	}
 }
@@ -1726,10 +1729,12 @@ func session(run *vh.Run, r *rand.Rand, backends []*backend, tlsBackend *backend
 					overrun = "no cleanup pass seen at the sentinel within 8 s"
 				}
 			} else {
-				// the pass that has just been seen started no later than now - shutdown_ms; the next one
-				// starts no earlier than 5 s after that
+				// the pass that has just been seen started no later than shutdown_ms before the sentinel
+				// saw its connection end (the backend's own time stamp, not the moment the harness looked);
+				// the next one starts no earlier than 5 s after that
 				sentinelPasses++
-				t0 = time.Now().Add(-shutdownWait).Add(-time.Duration(ticks) * period)
+				ended := time.Unix(0, atomic.LoadInt64(&sentinel.lastEnd))
+				t0 = ended.Add(-shutdownWait).Add(-time.Duration(ticks) * period)
 			}
 		}
 		// closes follow the tick after at most GRPCGShutdownTimeout: wait until every backend
